@@ -52,6 +52,8 @@ func symbols() *sl.Symbols {
 		sl.Op{Name: "upd[u1:{a:_delete,vec:_delete}]", Kind: "upd", Ids: []int{1}, Docs: []sl.Doc{{"a": "_delete", "vec": "_delete", "nosuch": "_delete"}}},
 		sl.Op{Name: "upd[u1:{n:{x:1}}]", Kind: "upd", Ids: []int{1}, Docs: []sl.Doc{{"n": sl.Doc{"x": int64(1)}}}},
 		sl.Op{Name: "upd[u1:{s:B},u4:{s:C}]", Kind: "upd", Ids: []int{1, 4}, Docs: []sl.Doc{{"s": "B", "vec": []float32{5, 5}}, {"s": "C"}}},
+		sl.Op{Name: "upd[u3:{gone:_delete,k:2}]", Kind: "upd", Ids: []int{3}, Docs: []sl.Doc{{"gone": "_delete", "k": int64(2)}}},
+		sl.Op{Name: "upd[u3:{k:_delete}]", Kind: "upd", Ids: []int{3}, Docs: []sl.Doc{{"k": "_delete", "extra": "_delete"}}},
 		sl.Op{Name: "upd[]", Kind: "upd"},
 		sl.Op{Name: "upd[u2:{big}]", Kind: "upd", Ids: []int{2}, Docs: []sl.Doc{{"big": big}}},
 		sl.Op{Name: "upd[u2:{txt,flat},u3:{a:1}]", Kind: "upd", Ids: []int{2, 3}, Docs: []sl.Doc{{"txt": "lazy dog", "flat": []float32{9, 9}}, {"a": int64(1), "vec": []float32{0.5, 0.5}}}},
@@ -81,7 +83,7 @@ func factory(raw json.RawMessage) (seqx.System, error) {
 }
 
 func master(cfg *harness.Config, rep *harness.Report) {
-	rep.Rule = "breadth-first search over histories of insert/update/delete batches (18-symbol alphabet incl. empty, duplicate-id, existing-id, unknown-id, oversized, nested and _delete batches) on the real shard; after every batch: returned error/ids vs the plain-map model, reported count, read of every id, select-all, and the raw points/internal buckets (bijection, counters, free list). evaluations = individual comparisons; states = distinct (model, point-store abstraction) pairs"
+	rep.Rule = "breadth-first search over histories of insert/update/delete batches (20-symbol alphabet incl. empty, duplicate-id, existing-id, unknown-id, oversized, nested and _delete batches) on the real shard; after every batch: returned error/ids vs the plain-map model, reported count, read of every id, select-all, and the raw points/internal buckets (bijection, counters, free list). evaluations = individual comparisons; states = distinct (model, point-store abstraction) pairs"
 	rep.Assumptions = []string{"documents are maps as the HTTP layer produces them", "which freed node id is reused first depends on Go map iteration and is not enumerated", "bbolt commit atomicity"}
 	p := pool.New(pool.Options{CPUsPerWorker: 2, JobTimeout: 30 * time.Second})
 	syms := symbols()
